@@ -111,7 +111,10 @@ def cases():
     for k in ('""', '" "', '"+"', '"-"', '"a b"', '"a-b"', '"."', '"null"', '"if"', '"in"', '"1"', '"\\u0000"', '"a.b"', '"date and time"'):
         out += ['{%s: 1}' % k, '{%s: 1, a: 2}' % k, '{%s: 1, a: 2}.a' % k, '{%s: 1, a: 2, b: a + 1}' % k, '{%s: {%s: 1}, a: 1}' % (k, k), '[{%s: 1}, {a: 1}]' % k, '{a: 1, %s: a}' % k,
                 'for x in [{%s: 1}] return x' % k, '{%s: 1, a b: 2, c: a b}' % k, '{%s: 1, %s: 2}' % (k, k), '{%s: 1}.%s' % (k, k.strip('"') or 'a'), 'get value({%s: 1}, %s)' % (k, k),
-                'get entries({%s: 1})' % k, '{%s: function(x) x + 1, r: 1}' % k]
+                'get entries({%s: 1})' % k, '{%s: function(x) x + 1, r: 1}' % k,
+                # a name that is NOT bound (a built-in function, a free name) lexed while the odd key is in the parsing scope
+                '{%s: 1, r: count([1, 2])}' % k, '{%s: 1, r: no such name}' % k, '{%s: 1, r: abs(-1) + unknown}' % k, '{%s: 1, r: for e in [1] return e + nothing}' % k,
+                '{%s: 1, r: string length("x")}' % k]
     # ---- I: control characters (also NUL) inside string arguments of the functions that hand text to other libraries (decimal library, regex, chrono)
     for ch in ('\\u0000', '\\u0001', '\\u0009', '\\u000A', '\\u001F', '\\u007F', '\\u0085', '\\uFEFF'):
         for t in ('1%s' % ch, '%s1' % ch, '1%s2' % ch, '%s' % ch, '2020-01-02%s' % ch, '%s10:11:12' % ch, 'P1D%s' % ch, 'a%sb' % ch):
